@@ -35,7 +35,7 @@ var (
 	bytesWebVTTTimeBoundariesSeparator = []byte(" " + webvttTimeBoundariesSeparator + " ")
 	webVTTAnnotationEscaper            = strings.NewReplacer("&", "&amp;", ">", "&gt;")
 	webVTTRegexpInlineTimestamp        = regexp.MustCompile(`<((?:\d{2,}:)?\d{2}:\d{2}\.\d{3})>`)
-	webVTTRegexpTag                    = regexp.MustCompile(`(</*\s*([^\.\s]+)(\.[^\s/]*)*\s*([^/]*)\s*/*>)`)
+	webVTTRegexpTag                    = regexp.MustCompile(`(</*\s*([^\.\s]+)(\.[^\s/]*)*\s*([^>]*?)\s*/*>)`)
 )
 
 // parseDurationWebVTT parses a .vtt duration
